@@ -111,8 +111,11 @@ pub trait Deserialize: DeserializeInner {
             addr_of_mut!((*ptr).1).write(backend);
         }
         // deserialize the data structure
+        // release the backend if deserialization fails or panics
+        let guard = BackendDropGuard(unsafe { addr_of_mut!((*ptr).1) });
         let mem = unsafe { (*ptr).1.as_ref().unwrap() };
         let s = Self::deserialize_eps(mem)?;
+        core::mem::forget(guard);
         // write the deserialized struct in the memcase
         unsafe {
             addr_of_mut!((*ptr).0).write(s);
@@ -158,8 +161,11 @@ pub trait Deserialize: DeserializeInner {
             addr_of_mut!((*ptr).1).write(backend);
         }
         // deserialize the data structure
+        // release the backend if deserialization fails or panics
+        let guard = BackendDropGuard(unsafe { addr_of_mut!((*ptr).1) });
         let mem = unsafe { (*ptr).1.as_ref().unwrap() };
         let s = Self::deserialize_eps(mem)?;
+        core::mem::forget(guard);
         // write the deserialized struct in the MemCase
         unsafe {
             addr_of_mut!((*ptr).0).write(s);
@@ -201,15 +207,31 @@ pub trait Deserialize: DeserializeInner {
             addr_of_mut!((*ptr).1).write(MemBackend::Mmap(mmap));
         }
 
+        // release the backend if deserialization fails or panics
+        let guard = BackendDropGuard(unsafe { addr_of_mut!((*ptr).1) });
         let mmap = unsafe { (*ptr).1.as_ref().unwrap() };
         // deserialize the data structure
         let s = Self::deserialize_eps(mmap)?;
+        core::mem::forget(guard);
         // write the deserialized struct in the MemCase
         unsafe {
             addr_of_mut!((*ptr).0).write(s);
         }
         // finish init
         Ok(unsafe { uninit.assume_init() })
+    }
+}
+
+/// Drops the [`MemBackend`] stored in a partially initialized [`MemCase`]
+/// unless it is forgotten: the loading methods of [`Deserialize`] use it to
+/// release the backing memory when ε-copy deserialization fails or panics.
+struct BackendDropGuard(*mut MemBackend);
+
+impl Drop for BackendDropGuard {
+    fn drop(&mut self) {
+        // SAFETY: the guard is created right after the backend has been
+        // written, and nothing borrows the backend when it is dropped.
+        unsafe { core::ptr::drop_in_place(self.0) };
     }
 }
 
